@@ -17,7 +17,7 @@
 (* replicas (gaps, offset, own values).                                    *)
 (***************************************************************************)
 EXTENDS ReadPath, FiniteSetsExt, Json, IOUtils
-CONSTANTS N, MaxRep, MaxChunks, Steps, NC, N3, CaseCap
+CONSTANTS N, MaxRep, MaxChunks, Steps, NC, N3, CaseCap, FrameCuts
 
 Stores == {1, 2}
 Names == {"a", "r", "s", "z"}
@@ -90,6 +90,20 @@ CWorlds ==
               : st \in Steps, off \in {0, 300}, c1 \in CChunks(Len(p1), 1), c2 \in CChunks(Len(p2), 2) }
           : p1 \in PtsSeqs, p2 \in PtsSeqs }
 
+(* class D (phase 2): one logical series of 4 grid points = 2 downsampling windows (res = 2), 1..2 identical  *)
+(* replicas, window-aligned cuts ([1..4] on store 1, or [1..2] on store 1 + [3..4] on store 2), every chunk held *)
+(* downsampled or not                                                                                            *)
+DChunkLists ==
+    { <<[lo |-> 1, hi |-> 4, st |-> 1, ds |-> d]>> : d \in BOOLEAN } \cup
+    { <<[lo |-> 1, hi |-> 2, st |-> 1, ds |-> d1], [lo |-> 3, hi |-> 4, st |-> 2, ds |-> d2]>> : d1 \in BOOLEAN, d2 \in BOOLEAN }
+DOptSeq == SetToSeq(DChunkLists)
+DWorlds ==
+    { [step |-> 10000, shape |-> "a", res |-> 2,
+       reps |-> [i \in DOMAIN ix |-> Rep(1, i, "r", 0, FALSE, <<1, 2, 3, 4>>, DOptSeq[ix[i]])]]
+      : ix \in { s \in UNION { [1..n -> 1..Len(DOptSeq)] : n \in 1..2 } : \A i, j \in DOMAIN s : i < j => s[i] <= s[j] } }
+WRes(w) == IF "res" \in DOMAIN w THEN w.res ELSE 0
+ValMul(w) == IF WRes(w) > 0 THEN 60 ELSE 1       \* multiples of 60: sum/count stays integral
+
 (* ---- concretisation (the harness does the same with realistic label names / base time) ---- *)
 Str(i) == ToString(i)
 RepLbls(w, r) ==
@@ -100,13 +114,20 @@ RepLbls(w, r) ==
 Concrete(w) ==
     { [lbls |-> RepLbls(w, r), id |-> 10 * r.g + r.id,
        samples |-> [i \in DOMAIN r.pts |->
-                      <<r.pts[i] * w.step + r.off, IF r.own THEN 1000 * r.id + r.pts[i] ELSE r.pts[i]>>],
+                      <<r.pts[i] * w.step + r.off, ValMul(w) * (IF r.own THEN 1000 * r.id + r.pts[i] ELSE r.pts[i])>>],
+       off |-> r.off,
        chunks |-> r.chunks] : r \in RangeOf(w.reps) }
+(* chunks get their downsampled form (ds chunks of class D) *)
+WithAgg(w, R) ==
+    { [r EXCEPT !.chunks = [k \in DOMAIN r.chunks |->
+         LET c == r.chunks[k]  d == IF "ds" \in DOMAIN c THEN c.ds ELSE FALSE IN
+         [lo |-> c.lo, hi |-> c.hi, st |-> c.st, ds |-> d,
+          agg |-> IF d THEN AggForm(SubSeq(r.samples, c.lo, c.hi), WRes(w), w.step, r.off) ELSE NoAgg]]] : r \in R }
 
 (* ---- state ---- *)
 VARIABLES world,     \* abstract world (as serialised for the harness)
           reps,      \* its concrete replica series
-          cfg,       \* [dedup, rls, strip, lo, hi, scope, frame]
+          cfg,       \* [dedup, rls, strip, lo, hi, scope, frame, fn, maxres, rng]
           stage,     \* "stores" | "proxy" | "split" | "iter" | "dedup" | "done"
           streams,   \* store -> sequence of [lbls, chunks (set)]   what each store sent
           series,    \* sequence of [lbls, chunks (sequence)]       proxy output, then overlap-split output
@@ -119,12 +140,13 @@ RL == IF cfg.dedup THEN cfg.rls ELSE {}
 WholeRange == [lo |-> 0, hi |-> 100000000]
 SubRange(w, n) == [lo |-> 2 * w.step, hi |-> (n - 1) * w.step + 300]
 
-Cfgs(w, cls) ==
+CfgsBase(w, cls) ==
     CASE cls = "A" -> { c \in
                       { [dedup |-> d, rls |-> {"r", "s"}, strip |-> [s \in Stores |-> s = 1], lo |-> rg.lo, hi |-> rg.hi,
                          scope |-> Stores, frame |-> f]
-                        : d \in BOOLEAN, rg \in {WholeRange, SubRange(w, N)}, f \in {0, 1} }
-                      : c.frame = 0 \/ c.lo = WholeRange.lo }      \* one chunk per frame: whole range only
+                        : d \in BOOLEAN, rg \in {WholeRange, SubRange(w, N)}, f \in FrameCuts }
+                      : /\ c.frame = 0 \/ c.lo = WholeRange.lo      \* one chunk per frame: whole range only
+                        /\ c.dedup \/ w.step = 10000 }              \* the time scale matters to the penalty dedup only
       [] cls = "A3" -> { [dedup |-> TRUE, rls |-> {"r", "s"}, strip |-> [s \in Stores |-> TRUE], lo |-> rg.lo, hi |-> rg.hi, scope |-> Stores, frame |-> 0]
                         : rg \in {WholeRange, SubRange(w, N3)} }
       [] cls = "B" -> { c \in
@@ -135,16 +157,31 @@ Cfgs(w, cls) ==
       [] cls = "C" -> { [dedup |-> d, rls |-> {"r", "s"}, strip |-> [s \in Stores |-> TRUE], lo |-> rg.lo, hi |-> rg.hi, scope |-> Stores, frame |-> 0]
                         : d \in BOOLEAN, rg \in {WholeRange, SubRange(w, NC)} }
 
+ResMs(w) == WRes(w) * w.step
+DFuncs == {"min_over_time", "sum_over_time", "count_over_time", "rate", "avg_over_time"}
+Cfgs(w, cls) ==
+    IF cls = "D"
+      THEN { [dedup |-> d, rls |-> {"r", "s"}, strip |-> [s \in Stores |-> TRUE], lo |-> WholeRange.lo, hi |-> WholeRange.hi,
+              scope |-> Stores, frame |-> 0, fn |-> f, maxres |-> mr.m, rng |-> mr.r]
+             : d \in BOOLEAN, f \in DFuncs,
+               mr \in { [m |-> 0, r |-> 0], [m |-> ResMs(w), r |-> 0], [m |-> ResMs(w), r |-> ResMs(w)], [m |-> 10 * ResMs(w), r |-> 4 * ResMs(w)] } }
+      ELSE { c @@ [fn |-> "", maxres |-> 0, rng |-> 0] : c \in CfgsBase(w, cls) }
+
 Init ==
-    /\ \E cls \in {"A", "A3", "B", "C"} :
-         /\ world \in (CASE cls = "A" -> AWorlds [] cls = "A3" -> A3Worlds [] cls = "B" -> BWorlds [] cls = "C" -> CWorlds)
+    /\ \E cls \in {"A", "A3", "B", "C", "D"} :
+         /\ world \in (CASE cls = "A" -> AWorlds [] cls = "A3" -> A3Worlds [] cls = "B" -> BWorlds [] cls = "C" -> CWorlds
+                          [] cls = "D" -> DWorlds)
          /\ cfg \in Cfgs(world, cls)
-    /\ reps = Concrete(world)
+    /\ reps = WithAgg(world, Concrete(world))
     /\ stage = "stores"
     /\ streams = [s \in Stores |-> <<>>]
     /\ series = <<>> /\ iters = <<>> /\ out = <<>>
 
-(* ---- stage 1: every store answers Series(lo, hi, WithoutReplicaLabels) ---- *)
+(* ---- stage 1: every store answers Series(lo, hi, WithoutReplicaLabels, MaxResolutionWindow, Aggregates) ---- *)
+(* the querier asks for maxResolutionFromSelectHints(...); a store serves the downsampled form of a chunk it holds *)
+(* that way iff the request allows the window (auto-downsampling)                                                  *)
+ReqMaxRes == MaxResFromHints(cfg.maxres, cfg.rng, cfg.fn)
+Served(c) == c.ds /\ ResMs(world) > 0 /\ ReqMaxRes >= ResMs(world)
 (* A store streams a series as >= 1 consecutive FRAMES with the same labels: cfg.frame = 0 puts  *)
 (* all chunks of the series in one frame, f > 0 at most f chunks per frame (TSDBStore cuts by    *)
 (* bytes, the bucket store by chunk count).  k = position of the frame within its series.        *)
@@ -160,7 +197,8 @@ Frames(x) ==
 StoreAnswer(s) ==
     LET strips == cfg.dedup /\ cfg.strip[s]
         mine == { [lbls |-> IF strips THEN Strip(r.lbls, RL) ELSE r.lbls, id |-> r.id,
-                   chunks |-> { ch \in { ChunkOf(r, r.chunks[k], r.id) : k \in { k \in DOMAIN r.chunks : r.chunks[k].st = s } }
+                   chunks |-> { ch \in { ChunkOfEff(r, r.chunks[k], Served(r.chunks[k]), cfg.fn, r.id)
+                                         : k \in { k \in DOMAIN r.chunks : r.chunks[k].st = s } }
                                 : ChunkOverlaps(ch, cfg.lo, cfg.hi) }] : r \in reps }
     IN SetToSortSeq(UNION { Frames(x) : x \in { y \in mine : y.chunks # {} } }, SeriesLess)
 StoresAnswer ==
@@ -227,10 +265,10 @@ Spec == Init /\ [][Next]_vars /\ WF_vars(Next)
 
 (* ---- known finding class (input only) ---- *)
 SR == Scoped(reps, cfg.scope)          \* what the selected stores hold
-VR == Visible(SR)                      \* ... as the property-level operators see it
+VR == EffView(reps, cfg.scope, Served, cfg.fn)   \* ... as the query sees it (property-level view)
 KnownFindingLset(l) ==
     LET G == Group(SR, RL, l)  VG == Group(VR, RL, l) IN
-    /\ cfg.dedup /\ cfg.rls # {} /\ VG # {} /\ IdenticalGroup(VG)
+    /\ cfg.dedup /\ cfg.rls # {} /\ ResMs(world) = 0 /\ VG # {} /\ IdenticalGroup(VG)
     /\ FirstChainIncomplete(GroupChunks(G, cfg.lo, cfg.hi), cfg.lo, cfg.hi, (CHOOSE r \in VG : TRUE).samples)
 
 (* ---- invariants ---- *)
@@ -257,6 +295,8 @@ C04_ExactWhenIdentical ==
     stage = "done" => \A i \in DOMAIN out :
         ~KnownFindingLset(out[i].lbls) => ExactWhenIdentical(out[i], VR, RL, cfg.lo, cfg.hi)
 C04_Provenance == stage = "done" => \A i \in DOMAIN out : Provenance(out[i], VR, RL)
+(* the stores are never asked for coarser data than allowed *)
+MaxResAsked == MaxResOK(ReqMaxRes, cfg.maxres, cfg.fn, cfg.rng)
 OutIncreasing ==
     stage = "done" => \A i \in DOMAIN out : \A k \in 1..(Len(out[i].samples) - 1) :
         out[i].samples[k][1] < out[i].samples[k + 1][1]
@@ -269,6 +309,6 @@ Seed == IF "VERIF_SEED" \in DOMAIN IOEnv THEN atoi(IOEnv.VERIF_SEED) ELSE 1
 Sample(S) == LET q == SetToSeq(S)  n == Len(q) IN
              IF n <= CaseCap THEN q
              ELSE [i \in 1..CaseCap |-> q[((i * (n \div CaseCap) + Seed) % n) + 1]]
-AllWorlds == Sample(AWorlds) \o Sample(A3Worlds) \o Sample(BWorlds) \o Sample(CWorlds)
+AllWorlds == Sample(AWorlds) \o Sample(A3Worlds) \o Sample(BWorlds) \o Sample(CWorlds) \o Sample(DWorlds)
 ASSUME ndJsonSerialize(CasesFile, AllWorlds)
 =============================================================================
